@@ -2,7 +2,7 @@
 import json, os
 from vlib import core
 
-THEOREMS = ["Props.C06." + t for t in []]
+THEOREMS = ["Props.C06." + t for t in ["const_value", "const_value_named", "const_value_fails_escaped_quote", "const_value_fails_foreign_struct_literal", "const_value_fails_optional_enum_member", "string_literal_emission", "string_literal_value", "string_literal_plain", "string_literal_defects", "newX_defaults", "initDefault_zero_eq_newX", "getter_default", "getter_set", "isset_optional_default", "isset_pointer", "predicate_tables_sound"]]
 
 def run(ctx):
     exe = ctx.go_build("c06")
